@@ -60,6 +60,30 @@ CHECKS = {
    tech="TLA+ predicate AsmStatic!ScopesAsStated over every label definition of real outputs for the TLC-enumerated GenTop family",
    text="Every file of <= 3 top-level statements over the statement kinds x {none, global, local}: each top-level and user label has the stated/default scope and every other (compiler-invented) label is local.",
    note=TRUST + "labels written inside raw blocks are the author's text and exempt.", ref="DESIGN.md sec. 5/C15"),
+ "C07": dict(cat="model_checking", engine="formattext",
+   tech="TLA+ state machine of the greedy text-box filler (FormatText.tla) model-checked by TLC, and conformance of the real FormatText / format() against FormatText!Run",
+   text="FormatText.tla (Place / Wrap / Break / Finish) is model-checked for every token list of <= 4 tokens over word widths 1..3 and the four break codes x max 3..6 x overlap 0..2 x numLines 1..3: words kept in order, every multi-word line fits (with the overlap where the prompt is shown), break discipline, a word is moved only if it does not fit. The REAL FormatText is then run on renderings of the same family (irregular spacing, glued codes, control codes in braces incl. one with a blank, a multi-byte letter, synthetic font tables) and its lines must be exactly the model's; format(...) through the real parser with positional, named, option and font-config parameters is compared with the model under the documented precedence.",
+   note=TRUST + "'prompt may follow' = another token follows and the line is the last of the box or the next token is \\p.", ref="DESIGN.md sec. 5/C07"),
+ "C16": dict(cat="exploration", engine="linemarkers",
+   tech="TLA+ predicates (LineMarkers.tla) on three real compilations per file, markers traced to constructs through identity tokens",
+   text="Seeded files with every construct kind, identity tokens renamed apart, laid out pretty / on one line / with random blanks, newlines, CRLF and comments at every gap: output with markers minus marker lines = output without; no markers without a path; every marker names the path and a line inside the input and inside the span of the construct that produced the following output line.",
+   note=TRUST + "a text statement's span starts at its keyword; an AutoVar operand's construct is the command call.", ref="DESIGN.md sec. 5/C16"),
+ "C17": dict(cat="exploration", engine="session",
+   tech="TLA+ trace spec (Session.tla: the process history is functional) over schedules enumerated by TLC, with fresh-process reference results; SameOut.tla for independence",
+   text="Every schedule of <= 3 (4) compilations over pools of 4 inputs (hand-made near-duplicates and seeded files) is executed in one process, plus 16-way concurrent compilations; the history, prefixed by the result each input gives in a fresh process, must be functional. Independence: a file's output equals the join of its statements compiled alone, and inserting an unrelated statement only inserts its block.",
+   note=TRUST + "digests are SHA-1 of output or error text.", ref="DESIGN.md sec. 5/C17"),
+ "C18": dict(cat="exploration", engine="robust",
+   tech="TLA+ outcome rules (Robust.tla) evaluated by TLC on the outcomes of the real compiler over the TLC-enumerated single-edit neighbourhood (GenMut.tla)",
+   text="Every truncation, deletion, duplication, adjacent swap and (sampled in the quick tier) substitution / insertion of each vocabulary token incl. hostile runes, applied to token windows of seeded files, under 4 option sets, normal and lint mode, with wall-clock limit and heap watch: outcome is output or an error located inside the input, lint accepts what normal accepts and never blames switches or fonts.",
+   note=TRUST + "crash-freedom is explored, not decided; inputs are valid UTF-8.", ref="DESIGN.md sec. 5/C18"),
+ "C19": dict(cat="model_checking", engine="lextrace",
+   tech="TLA+ position model (LexPos.tla) with trace validation (LexTrace.tla) of the real lexer's token stream; SameOut.tla for layout independence of compiled output",
+   text="Every pair of token-class representatives x separators at the three gaps (TLC-enumerated, GenLex.tla), every representative as the last thing in the input, and seeded longer lists: each token the real lexer returns must have the predicted type, literal, line, byte and character start, and end for single-line tokens; EOF at the final position and nothing else. Seeded files are compiled in three layouts and must give identical output.",
+   note=TRUST + "a separator that would glue two lexemes (or merge two string literals) is not a layout.", ref="DESIGN.md sec. 5/C19"),
+ "C20": dict(cat="exploration", engine="reject",
+   tech="TLA+ static rules (Reject.tla over the PoryLang node tables) evaluated by TLC on the outcome of the real compiler",
+   text="break and continue inserted at every position of every block of the GenCtl family and seeded programs (legal and illegal): rejected iff Reject.tla says illegal, on the line of the first offending keyword; duplicate cases, two defaults, redefined constants, text/movement/label clashes with generated names, each with non-violating twins, at nesting depths 0-3 with shifted line numbers.",
+   note=TRUST + "continue at the end of a non-final case body is exempt (parser documented stricter).", ref="DESIGN.md sec. 5/C20"),
  "C11": dict(cat="model_checking", engine="refine",
    tech="TLA+ product exploration with AutoVar leaves as command+read",
    text="Every expression shape with <= 3 leaves x every placement of 1-2 AutoVar leaves (name- and position-configured), as if/elif/while/do-while conditions and switch operands; the product shows each AutoVar command runs exactly once per evaluation in short-circuit order and the configured var is compared. The real binary with -cc <json> is shown to produce the same text.",
@@ -104,6 +128,9 @@ def main():
             {"name": "vmonly", "path": "spec/VMOnly.tla", "serves_properties": ["C04"], "kind_free_text": "ScriptVM reachability"},
             {"name": "hoisttrace", "path": "spec/HoistTrace.tla", "serves_properties": ["C06", "C08"], "kind_free_text": "deterministic trace replay against Hoist.tla"},
             {"name": "pairs", "path": "spec/Poryswitch.tla, spec/Constants.tla", "serves_properties": ["C12", "C13"], "kind_free_text": "two real compilations paired by construction, judged by TLC"},
+            {"name": "formattext", "path": "spec/FormatText.tla", "serves_properties": ["C07"], "kind_free_text": "model-checked state machine + conformance of the real function"},
+            {"name": "traces", "path": "spec/LexTrace.tla, spec/Session.tla", "serves_properties": ["C17", "C19"], "kind_free_text": "deterministic trace replay"},
+            {"name": "outcomes", "path": "spec/Robust.tla, spec/Reject.tla, spec/LineMarkers.tla", "serves_properties": ["C16", "C18", "C20"], "kind_free_text": "rules evaluated on recorded outcomes"},
             {"name": "emission", "path": "spec/Emission.tla", "serves_properties": ["C09", "C14", "C08", "C10"], "kind_free_text": "emission rules evaluated on recorded outputs"},
         ],
         "checks": checks,
